@@ -10,6 +10,7 @@ import (
 	"golang.org/x/tools/go/packages"
 	"math/big"
 	"sort"
+	"strconv"
 	"strings"
 
 	"golang.org/x/tools/go/ssa"
@@ -559,7 +560,7 @@ func CheckC12(c *Ctx) {
 	var procCall *ast.CallExpr
 	var procIf *ast.IfStmt
 	// a start date computed by an unexported helper is analysed as if its body stood in the loop
-	loop = &ast.RangeStmt{For: loop.For, Key: loop.Key, Value: loop.Value, Tok: loop.Tok, X: loop.X, Body: &ast.BlockStmt{Lbrace: loop.Body.Lbrace, Rbrace: loop.Body.Rbrace, List: c.inlineValueCalls(info, loop.Body.List, true)}}
+	loop = &ast.RangeStmt{For: loop.For, Key: loop.Key, Value: loop.Value, Tok: loop.Tok, X: loop.X, Body: &ast.BlockStmt{Lbrace: loop.Body.Lbrace, Rbrace: loop.Body.Rbrace, List: c.inlineValueCalls(info, c.inlineBoolGuards(info, loop.Body.List), true)}}
 	procBody = loop.Body
 	hasLastDate := false
 	ast.Inspect(loop.Body, func(n ast.Node) bool {
@@ -1177,7 +1178,40 @@ func CheckC13(c *Ctx) {
 	if id, ok := stratLoop.Value.(*ast.Ident); ok {
 		stratObj = info.Defs[id]
 	}
+	// the per-strategy work may live in an unexported method: its body is analysed as if it stood in
+	// the loop, its parameter that receives the loop's strategy standing for it
+	stratBody := stratLoop.Body.List
 	for _, s := range stratLoop.Body.List {
+		es, isES := s.(*ast.ExprStmt)
+		if !isES {
+			continue
+		}
+		call, isCall := es.X.(*ast.CallExpr)
+		if !isCall {
+			continue
+		}
+		fn := callee(info, call)
+		if fn == nil || fn.Exported() {
+			continue
+		}
+		d := c.P.Decls[fn.Origin()]
+		if d == nil || d.Decl.Body == nil || d.Pkg.TypesInfo != info {
+			continue
+		}
+		i := 0
+		for _, f := range d.Decl.Type.Params.List {
+			for _, nm := range f.Names {
+				if i < len(call.Args) {
+					if aid, isID := ast.Unparen(call.Args[i]).(*ast.Ident); isID && stratObj != nil && info.ObjectOf(aid) == stratObj {
+						stratObj = info.ObjectOf(nm)
+					}
+				}
+				i++
+			}
+		}
+		stratBody = c.flattenCalls(info, stratLoop.Body.List, 1)
+	}
+	for _, s := range stratBody {
 		ast.Inspect(s, func(n ast.Node) bool {
 			switch x := n.(type) {
 			case *ast.CallExpr:
@@ -1207,7 +1241,7 @@ func CheckC13(c *Ctx) {
 		})
 	}
 	// the Write must not sit inside a conditional
-	for _, s := range stratLoop.Body.List {
+	for _, s := range stratBody {
 		if is, ok := s.(*ast.IfStmt); ok {
 			ast.Inspect(is, func(n ast.Node) bool {
 				if call, ok := n.(*ast.CallExpr); ok && strings.HasSuffix(calleeName(info, call), "(Report).Write") {
@@ -1814,6 +1848,11 @@ func (c *Ctx) sliceBounds() {
 			}
 			for _, site := range unguardedSliceIndexes(bp.TypesInfo, fd.Body) {
 				run.Count("slice_indexes", 1)
+				if !site.guarded && !fd.Name.IsExported() {
+					// an unexported helper indexing its parameter: guarded when every caller in the
+					// package checks the length of what it passes before the call
+					site.guarded = c.callersGuard(bp, fd, site)
+				}
 				run.Oblige(site.guarded)
 				if !site.guarded {
 					c.violate("backtest/bounds", "backtest."+fd.Name.Name, site.text, site.pos, "the slice index "+site.text+" is neither the key of a range over that slice nor protected by a check of its length: an empty (or shorter) slice panics, on a worker goroutine that ends the whole run")
@@ -2547,7 +2586,8 @@ func (c *Ctx) writeArguments(worker *load.FuncInfo, site string) {
 				neg, isNeg := ast.Unparen(days).(*ast.UnaryExpr)
 				now := false
 				if sel, isSel := ast.Unparen(add.Fun).(*ast.SelectorExpr); isSel {
-					if nc, isC := ast.Unparen(sel.X).(*ast.CallExpr); isC && calleeName(info, nc) == "time.Now" {
+					base, _ := c.origin(info, ofd, sel.X, 0)
+					if nc, isC := ast.Unparen(base).(*ast.CallExpr); isC && calleeName(info, nc) == "time.Now" {
 						now = true
 					}
 				}
@@ -2838,4 +2878,96 @@ func lenCondAt(info *types.Info, cond ast.Expr, base string, ln int64) (bool, bo
 		return l >= r, true
 	}
 	return false, false
+}
+
+// callersGuard: site indexes a parameter of the unexported function fd with a constant; true when
+// the package calls fd at least once and every call is preceded, in its own function, by a
+// statement that leaves when the argument's length does not exceed the index.
+func (c *Ctx) callersGuard(pk *packages.Package, fd *ast.FuncDecl, site indexSite) bool {
+	info := pk.TypesInfo
+	// the indexed parameter and the constant index, from the site text "p[k]"
+	open := strings.LastIndex(site.text, "[")
+	if open < 0 || !strings.HasSuffix(site.text, "]") {
+		return false
+	}
+	pname := site.text[:open]
+	k, err := strconv.ParseInt(site.text[open+1:len(site.text)-1], 10, 64)
+	if err != nil || k < 0 {
+		return false
+	}
+	pidx := -1
+	i := 0
+	for _, f := range fd.Type.Params.List {
+		for _, nm := range f.Names {
+			if nm.Name == pname {
+				pidx = i
+			}
+			i++
+		}
+	}
+	if pidx < 0 {
+		return false
+	}
+	fobj := info.Defs[fd.Name]
+	calls, guarded := 0, 0
+	for _, f := range pk.Syntax {
+		for _, d := range f.Decls {
+			caller, ok := d.(*ast.FuncDecl)
+			if !ok || caller.Body == nil {
+				continue
+			}
+			var stack []ast.Node
+			ast.Inspect(caller.Body, func(n ast.Node) bool {
+				if n == nil {
+					stack = stack[:len(stack)-1]
+					return true
+				}
+				stack = append(stack, n)
+				call, isCall := n.(*ast.CallExpr)
+				if !isCall || pidx >= len(call.Args) {
+					return true
+				}
+				if fn := callee(info, call); fn == nil || fn.Origin() != fobj {
+					return true
+				}
+				calls++
+				base := types.ExprString(call.Args[pidx])
+				ok := false
+				for i := len(stack) - 1; i >= 0 && !ok; i-- {
+					blk, isB := stack[i].(*ast.BlockStmt)
+					if !isB {
+						continue
+					}
+					for _, st := range blk.List {
+						if st.End() > call.Pos() {
+							break
+						}
+						is, isIf := st.(*ast.IfStmt)
+						if !isIf || len(is.Body.List) == 0 {
+							continue
+						}
+						switch is.Body.List[len(is.Body.List)-1].(type) {
+						case *ast.ReturnStmt, *ast.BranchStmt:
+						default:
+							continue
+						}
+						all := true
+						for ln := int64(0); ln <= k; ln++ {
+							if v, dec := lenCondAt(info, is.Cond, base, ln); !dec || !v {
+								all = false
+							}
+						}
+						if all {
+							ok = true
+						}
+					}
+				}
+				if ok {
+					guarded++
+				}
+				return true
+			})
+		}
+	}
+	return calls > 0 && calls == guarded
 }
